@@ -144,9 +144,9 @@ func TestVerifC09Sched(t *testing.T) {
 	defer st.Close()
 	stat := NewVStats()
 	r := NewVRand(VSeed() + 41)
-	hist := 500
+	hist := 3000
 	if VThorough() {
-		hist = 7000
+		hist = 30000
 	}
 	for hi := 0; hi < hist; hi++ {
 		n := 2 + r.Intn(3)
@@ -174,6 +174,7 @@ func TestVerifC09Sched(t *testing.T) {
 			default:
 				state[tt] = "mid"
 			}
+			w.busy[tt] = state[tt] == "busy"
 			st.Emit(op, w.obs(pc))
 			stat.Inc("sched.at." + pc)
 		}
@@ -194,6 +195,7 @@ func TestVerifC09Sched(t *testing.T) {
 					st.Emit(fmt.Sprintf("F fwd %d", tt), out)
 					continue
 				}
+				w.busy[tt] = false
 				h.spawn(tt, func() string { w.entry.endUse(); return "" })
 				after(tt, fmt.Sprintf("F start end %d", tt))
 			default:
@@ -227,6 +229,7 @@ func TestVerifC09Sched(t *testing.T) {
 					after(tt, fmt.Sprintf("F step %d", tt))
 				}
 				if state[tt] == "busy" {
+					w.busy[tt] = false
 					h.spawn(tt, func() string { w.entry.endUse(); return "" })
 					after(tt, fmt.Sprintf("F start end %d", tt))
 				}
@@ -461,9 +464,9 @@ func TestVerifC09Pipe(t *testing.T) {
 	defer st.Close()
 	stat := NewVStats()
 	r := NewVRand(VSeed() + 53)
-	hist := 300
+	hist := 2000
 	if VThorough() {
-		hist = 4000
+		hist = 20000
 	}
 	// idBitmap.Allocate against the model's allocate
 	for i := 0; i < 40; i++ {
